@@ -187,6 +187,19 @@ pub fn parse_msg(s: &str) -> Option<CosmosMsg> {
     })
 }
 
+/// now and then repeat one message of a list (adjacent or at the end): "relayed exactly as submitted" includes repeats
+fn dup_one(rng: &mut Rng, msgs: &mut Vec<String>) {
+    if !msgs.is_empty() && rng.chance(1, 6) {
+        let i = rng.below(msgs.len() as u64) as usize;
+        let m = msgs[i].clone();
+        if rng.chance(2, 3) {
+            msgs.insert(i, m);
+        } else {
+            msgs.push(m);
+        }
+    }
+}
+
 fn parse_msgs(s: &str) -> Vec<CosmosMsg> {
     if s.is_empty() {
         vec![]
@@ -833,7 +846,8 @@ impl Scenario for Cw1Scen {
             return if r < 45 {
                 let snd = self.pick_sender(rng, 70, 0);
                 let n = *rng.pick(&[0usize, 1, 1, 2, 3]);
-                let msgs: Vec<String> = (0..n).map(|_| self.gen_msg(rng, &snd, false)).collect();
+                let mut msgs: Vec<String> = (0..n).map(|_| self.gen_msg(rng, &snd, false)).collect();
+                dup_one(rng, &mut msgs);
                 format!("exec {snd} execute msgs={}", msgs.join(";"))
             } else if r < 50 {
                 format!("exec {} freeze", self.pick_sender(rng, 60, 0))
@@ -896,7 +910,8 @@ impl Scenario for Cw1Scen {
         } else if r < 65 {
             let snd = self.pick_sender(rng, 15, 70);
             let n = *rng.pick(&[0usize, 1, 1, 1, 2, 2, 3]);
-            let msgs: Vec<String> = (0..n).map(|_| self.gen_msg(rng, &snd, true)).collect();
+            let mut msgs: Vec<String> = (0..n).map(|_| self.gen_msg(rng, &snd, true)).collect();
+            dup_one(rng, &mut msgs);
             format!("exec {snd} execute msgs={}", msgs.join(";"))
         } else if r < 83 {
             let (s, who) = self.gen_probe_sender(rng);
